@@ -123,6 +123,31 @@ func checkRequestLineMode(w *core.Worker, meth, uri, ver, line string, in []byte
 	case !fl.Parsed() || fl.Pending() || fl.Empty():
 		fail("Parsed/Pending/Empty predicates inconsistent after success")
 	}
+	// long method tokens: two pieces, cut at every position from byte 14 to the end of the token
+	// (the first call waits for 14 bytes, so only such cuts suspend inside the token)
+	if !chunked && len(meth) > 14 && okAll {
+		step := 1
+		if len(meth) > 80 {
+			step = len(meth)/40 + 1 // very long tokens: ~40 cut positions
+		}
+		for cut := 14; cut <= len(meth); cut += step {
+			var f2 sipsp.PFLine
+			var n2 int
+			var e2 sipsp.ErrorHdr
+			p2, _, _ := core.Guard(func() {
+				n2, e2 = sipsp.ParseFLine(isoCopy(in[:cut]), 0, &f2)
+				if e2 == sipsp.ErrHdrMoreBytes {
+					n2, e2 = sipsp.ParseFLine(in, n2, &f2)
+				}
+			})
+			w.Eval(1)
+			if p2 || e2 != sipsp.ErrHdrOk || n2 != len(line) || int(f2.MethodNo) != wantNo || string(f2.Method.Get(in)) != meth {
+				fl, n, e = f2, n2, e2
+				fail(fmt.Sprintf("delivered in two pieces (first %d bytes, then everything): method %q number %d, expected %q number %d", cut, f2.Method.Get(in), f2.MethodNo, meth, wantNo))
+				break
+			}
+		}
+	}
 	// the same through the message parser: PSIPMsg.Method()
 	var m sipsp.PSIPMsg
 	full := []byte(line + "CSeq: 1 BYE\r\n\r\n")
@@ -296,8 +321,19 @@ func RunC08(r *core.Run) {
 	r.Stage("request-lines/random-tokens", r.Pick(1500000, 200000000), func(w *core.Worker, idx int64) {
 		rr := core.NewRand(r.Seed, 0xC08, 3, uint64(idx))
 		m := string(rr.Bytes(rr.Range(1, 30), tokAlpha))
-		if rr.Intn(3) == 0 {
+		switch rr.Intn(6) {
+		case 0, 1:
 			m = ref.MethodList[rr.Intn(len(ref.MethodList))]
+		case 2:
+			// an unknown method that ends in / starts with a known one, longer than the 14 bytes
+			// the first call waits for (the byte-by-byte delivery then suspends inside it)
+			k := ref.MethodList[rr.Intn(len(ref.MethodList))]
+			x := string(rr.Bytes(rr.Range(8, 24), tokAlpha))
+			if rr.Bool() {
+				m = x + k
+			} else {
+				m = k + x
+			}
 		}
 		u := string(rr.Bytes(rr.Range(1, 30), tokAlpha))
 		v := string(rr.Bytes(rr.Range(1, 9), tokAlpha))
